@@ -4,6 +4,16 @@
 // /verif/engine (govc). The contracts that use them are the parseTable* entries of zz_contracts_verif_reader.go
 // and the clone family (zz_contracts_verif_clone.go, CopyTable in zz_contracts_verif_table2.go).
 // Comments only: with or without the build tag this file adds no code to the package.
+//
+// How the C09 induction reaches opened documents and copies: parseTable (for every token stream) and cloneTable /
+// CopyTable (for every source table) ESTABLISH rowsOwn, cellPropsOwn, rowPropsOwn, cellParasOwn, paraRunsOwn for
+// their result, exactly as the three constructors do; AddNestedTable PRESERVES them for the outer table. The proof is
+// by allocation intervals: every call of parseTableCell / parseTableRow (cloneTableCell / cloneTableRow) returns parts
+// allocated at or after its own entry bound (<x>PartsAbove) and the parts collected so far are allocated (<x>PartsLive),
+// hence below that bound - so what a later call returns is distinct from everything collected before (cellsApart,
+// rowsApart), and the five predicates follow at the return of parseTable / cloneTable by instantiation.
+// The reader does NOT establish non-nil Grid / Properties / cell properties or "at least one paragraph per cell"
+// (no tblGrid, tblPr, tcPr or w:p in the stream); no editor under contract requires them.
 package document
 
 // Side objects of a borders / margins element: <x>Above(b, lo) - every side is nil or was allocated at or after the
